@@ -7,7 +7,7 @@ use std::convert::TryInto;
 use serde_json::Value;
 
 use crate::error::Error;
-use crate::value::{Evaluated, Parsed};
+use crate::value::Evaluated;
 use crate::NULL;
 
 /// Valid types of variable keys
@@ -94,11 +94,12 @@ pub fn var(data: &Value, args: &Vec<&Value>) -> Result<Value, Error> {
     let key = args[0].try_into()?;
     let val = get_key(data, key);
 
+    // The default operand has already been evaluated along with the other
+    // arguments, so it is returned as is: it is data now, not rule text.
     Ok(val.unwrap_or(if arg_count < 2 {
         NULL
     } else {
-        let _parsed_default = Parsed::from_value(args[1])?;
-        _parsed_default.evaluate(&data)?.into()
+        args[1].clone()
     }))
 }
 
